@@ -30,13 +30,17 @@ def safe_name(idx, cc):
     return "".join(c if (c.isascii() and (c.isalnum() or c in "-_.")) else "_" for c in s)
 
 
-def movie_case(rng, kind="movie", nmax=30, big=False):
-    order = rng.choice("<>")
-    exe = order == "<" and rng.random() < 0.4
+def movie_case(rng, kind="movie", nmax=30, big=False, force=None):
+    """force=(pos, b): a projector whose embedded movie has byte b at position pos (0 = lowest) of its 4-byte RIFX length field
+    (bytes a text-oriented search treats specially: line ends, NUL, backslash, dot, dollar)"""
+    order = rng.choice("<>") if force is None else "<"
+    exe = (order == "<" and rng.random() < 0.4) or force is not None
     prefix = c01.rand_prefix(rng, order) if exe else b""
     if exe and c01.first_genuine(prefix + b"XFIR0000" + b"39VM") != len(prefix):
         prefix = b"MZ" + bytes(50)
     n = rng.randrange(300, 500) if big else rng.choice([2, 3, 4, 6, rng.randrange(2, nmax + 1)])
+    if force is not None:
+        n = max(n, 3)
     def fourcc():
         r = rng.random()
         if r < 0.45:
@@ -48,6 +52,18 @@ def movie_case(rng, kind="movie", nmax=30, big=False):
     mmap_at = rng.randrange(1, n)
     extra = [(rng.choice([b"free", b"junk", fourcc()]), rng.choice([0, -1]), 0, 12, 0, -1) for _ in range(rng.randrange(0, 3))]
     data, entries, offs, chunks = c01.build_movie(order, prefix, chunks, mmap_at, extra)
+    if force is not None:
+        pos, b = force
+        L0 = struct.unpack("<i", data[len(prefix) + 4:len(prefix) + 8])[0]
+        last = max(i for i in range(1, n) if i != mmap_at)
+        cc, pl = chunks[last]
+        base = L0 - (len(pl) + len(pl) % 2)
+        k = next((k for k in range(0, 70000, 2) if ((base + k) >> (8 * pos)) & 0xFF == b), None)
+        if k is not None:
+            chunks = [(c, (b"" if i in (0, mmap_at) else p)) for i, (c, p) in enumerate(chunks)]
+            chunks[last] = (cc, bytes((7 * j + 1) % 256 for j in range(k)))
+            data, entries, offs, chunks = c01.build_movie(order, prefix, chunks, mmap_at, extra)
+            kind = kind + "-lenbyte"
     P = len(prefix)
     files = {}
     for idx, (cc, size, off, fl, un, nx) in enumerate(entries):
@@ -112,6 +128,7 @@ def cases(rng, tier):
     out = fourcc_byte_cases()
     out += [movie_case(rng) for _ in range(n[0])]
     out += [movie_case(rng, big=True) for _ in range(n[2])]
+    out += [movie_case(rng, nmax=6, force=(pos, b)) for pos in (0, 1) for b in (0x0A, 0x0D, 0x00, 0x5C, 0x2E, 0x24, 0x1A, 0x0C, 0x85, 0xFF) if not (pos == 0 and b % 2)]
     out += [mutated_case(rng) for _ in range(n[1])]
     return out
 
